@@ -1,7 +1,7 @@
 (* C09 — bloom filters have no false negatives and are bit-exact BIP37.
    Only statements; every proof is `exact <lemma proved elsewhere>`. *)
 From BU Require Import Lib.Bytes Bloom.Murmur3 Bloom.Bloom Bloom.Bip37Spec Bloom.BloomProofs Bloom.Bip37Proofs.
-From BU Require Import Bloom.SizingProofs.
+From BU Require Import Bloom.SizingProofs Bloom.Bip37History.
 From BU Require Import Gen.Kernels Tie.KernelsTieMurmur.
 
 (* the hand-written MurmurHash3 model equals the Gallina term that harness/cmd/gotrans translates from the AST of
@@ -48,9 +48,34 @@ Theorem C09_model_is_bip37 : forall m item,
 Proof. exact model_is_bip37. Qed.
 Print Assumptions C09_model_is_bip37.
 
+(* bit-exactness of whole histories (review round 2).  From the moment a well-formed message m was loaded
+   (LoadFilter(m) is the case pre = []; f and pre are arbitrary), after ANY sequence of insertions and queries
+   without a further Reload/Unload: the filter is still loaded with m's parameters, its bit array v is the one
+   BIP37 defines -- m's bits plus exactly the bits "MurmurHash3(i*0xFBA4C795+tweak, item) mod bit length",
+   i < nHashFuncs, of every inserted byte string / hash / serialised outpoint, and nothing else -- v is the
+   only byte string with that property, and every membership answer (byte strings and outpoints) is BIP37's
+   answer on v. *)
+Theorem C09_history_is_bip37 : forall f pre m ops,
+  bip37_wf m -> no_reset ops ->
+  exists v, final f (pre ++ OReload (Some m) :: ops) = Some (MkMsg v (m_nhash m) (m_tweak m) (m_flags m)) /\
+    spec_after (m_nhash m) (m_tweak m) (live_items [] ops) (m_bytes m) v /\
+    (forall v', spec_after (m_nhash m) (m_tweak m) (live_items [] ops) (m_bytes m) v' -> v' = v) /\
+    (forall d, matches (final f (pre ++ OReload (Some m) :: ops)) d = true <-> spec_contains (m_nhash m) (m_tweak m) d v) /\
+    (forall txid index, index < 2^32 ->
+       (matches_outpoint (final f (pre ++ OReload (Some m) :: ops)) txid index = true <->
+        spec_contains (m_nhash m) (m_tweak m) (spec_outpoint txid index) v)).
+Proof. exact history_is_bip37. Qed.
+Print Assumptions C09_history_is_bip37.
+
 Theorem C09_outpoint_is_bip37 : forall txid index, index < 2^32 -> outpoint_bytes txid index = spec_outpoint txid index.
 Proof. exact outpoint_is_bip37. Qed.
 Print Assumptions C09_outpoint_is_bip37.
+
+(* the serialisation used by MatchesOutPoint (a second copy of the code in the source) is the same one *)
+Theorem C09_outpoint_query_is_bip37 : forall f txid index, index < 2^32 ->
+  matches_outpoint f txid index = matches f (spec_outpoint txid index).
+Proof. exact (fun f txid index H => eq_trans (matches_outpoint_eq f txid index) (f_equal (matches f) (outpoint_is_bip37 txid index H))). Qed.
+Print Assumptions C09_outpoint_query_is_bip37.
 
 Theorem C09_wire_limits_are_bip37 : max_filter_size = spec_max_size /\ max_hash_funcs = spec_max_hash_funcs.
 Proof. exact limits_are_bip37. Qed.
